@@ -7,6 +7,8 @@ CONSTANTS
   InsertNewTagStoresChars = FALSE
   NonAtomicRead = FALSE
   NonAtomicQread = FALSE
+  ReverseViewCached = FALSE
+  AliasBoundToFirstObject = FALSE
   ShallowCopy = TRUE
   SrcSteps = 2
   Emit = FALSE
